@@ -161,7 +161,7 @@ def alphabet(tier):
          C("TwoLevel", (3, 1, "DISK", "revolve"), 7), C("TwoLevel", (4, 1, "RAM", "maximum"), 9)],
         [C("TwoLevel", (4, 2, "DISK", "maximum"), 9, 2), C("TwoLevel", (4, 2, "RAM", "maximum"), 9, 2)],
         [C("Revolve", (2,) + dflt, 5), C("Revolve", (2, 1, 3, 2, 2), 5), C("Revolve", (1,) + dflt, 5),
-         C("Revolve", (2,) + dflt, 6), C("DiskRevolve", (2,) + dflt, 5)],
+         C("Revolve", (2,) + dflt, 8), C("DiskRevolve", (2,) + dflt, 5)],
         [C("DiskRevolve", (1,) + dflt, 6), C("DiskRevolve", (1, 1, 1, 0.5, 0.5), 6),
          C("Revolve", (1,) + dflt, 6), C("PeriodicDiskRevolve", (1,) + dflt, 6)],
         [C("PeriodicDiskRevolve", (1,) + dflt, 6), C("PeriodicDiskRevolve", (1, 3, 1, 2, 2), 6),
@@ -190,8 +190,8 @@ def alphabet(tier):
 def tasks(tier):
     """(mode, group index, victim index, [observed indices]) -- the unit of
     parallel work.  abort: everything in the group is observed afterwards.
-    preempt: the switched-to 'thread' runs the victim's next sibling (and,
-    thorough, the victim's own configuration); afterwards the whole group is
+    preempt: the switched-to 'thread' runs the victim's own configuration
+    (and, thorough, its next sibling); afterwards the whole group is
     observed.  Quick tier: the first two members of each group are preempted,
     thorough: all."""
     out = []
@@ -200,11 +200,14 @@ def tasks(tier):
             out.append(("abort", gi, vi, list(range(len(g)))))
             if tier != "thorough" and vi >= 2:
                 continue
-            others = [(vi + 1) % len(g)]
+            # two threads doing the same thing is the canonical race (equal
+            # keys, duplicated appends); a sibling as the other thread adds
+            # the key-confusion cases
+            others = [vi]
             if tier == "thorough":
-                others.append(vi)
+                others.append((vi + 1) % len(g))
             for oi in others:
-                rest = [x for x in range(len(g)) if x != oi]
+                rest = list(range(len(g)))
                 out.append(("preempt", gi, vi, [oi] + rest))
     return out
 
